@@ -259,6 +259,9 @@ func (f *File) walked(names []string, r Result) ([]p9.QID, p9.File, error) {
 	for i := range qids {
 		qids[i] = nf.qid()
 	}
+	if v, ok := r.Vals["qids"]; ok {
+		qids = v.([]p9.QID)
+	}
 	return qids, nf, nil
 }
 
